@@ -916,6 +916,11 @@ class Ref(Field):
         referenced = self.prototype(pkt=pkt, raw=raw, offset=offset, **k)
 
         if isinstance(referenced, Field):
+            # The callable may hand us the very same field object on each
+            # call, to every packet and to several Ref fields (a literal
+            # inside a chooses({...}) table shared by them): never rename
+            # it, bind a private copy instead.
+            referenced = copy.copy(referenced)
             referenced.field_name = self.field_name
             referenced._compile(
                 position=self.position, fields=[], bisturi_conf={}
@@ -949,6 +954,8 @@ class Ref(Field):
         )
 
         if isinstance(referenced, Field):
+            # see _unpack_using_callable: bind a private copy
+            referenced = copy.copy(referenced)
             referenced.field_name = self.field_name
             referenced._compile(
                 position=self.position, fields=[], bisturi_conf={}
